@@ -454,7 +454,7 @@ def comb_coverage(rep, u):
 def _digit_bits(u):
     for r in u.records.values():
         for f in r.get("fields", []):
-            if f["n"] == "num" and r["n"].startswith("bn_"):
+            if f["n"] == "num" and any(g_["n"] == "digits" for g_ in r.get("fields", [])):      # the bignum record, whatever its tag
                 t = u.type(f["t"])
                 if t["k"] == "arr":
                     return (u.type(t["to"]).get("size") or 8) * 8
